@@ -211,7 +211,7 @@ AUDIT = {
             'itself (MatePairIterator, ReadIterator, fetch windows); every permutation of small multisets with check_eject_every=None.',
             'Fragments span < half the cache size; UMIs compared exactly; with ejection the input is sorted (the documentation requires it); '
             'allele clustering and the TAPS / feature classes share the same ejection code and are not generated.'),
-    'C08': ('Audit extension: -tagthreads 1..8 under the owned scheduler and free-running real-Pool runs; methods qflag, nla_no_overhang, '
+    'C08': ('Virtual clock: -max_time_per_segment 60 under a clock that moves one hour between segments and is frozen inside one (3 bins per job, all bins in one job, contig-per-process). Audit extension: -tagthreads 1..8 under the owned scheduler and free-running real-Pool runs; methods qflag, nla_no_overhang, '
             'nla_taps, chic_taps, nla_transcriptome, scartrace with generated FASTA/GTF; libraries empty / unmapped-only / single molecule / '
             'odd fragments on every job boundary; a one-base mate at exactly the longest fragment distance (no margin slack); 13 further options; '
             'the ownership clause observed directly (every job file read, each read-1 DS inside that job\'s bins).',
@@ -235,7 +235,7 @@ AUDIT = {
             'alignment files lists its contigs in the opposite order; a soft clip behind the aligned part.',
             'The oracle follows the CLI help strings; undocumented interactions (split + by-value, by-value or bin + bed, NM missing, XA vs NH '
             'disagreement, -head with several files) are not judged.'),
-    'C12': ('Audit extension: dedup=False, ignore_mp, min_mq None/0, two key tags, skip_contigs (7 forms), head, alt_spans, path lists, explicit '
+    'C12': ('Sparse BAMs: sites in stretches no alignment overlaps (coverage gaps wider than a job), every job split. Audit extension: dedup=False, ignore_mp, min_mq None/0, two key tags, skip_contigs (7 forms), head, alt_spans, path lists, explicit '
             'count_function on BAMs with records lacking SM / DS, discordant pairs, MAPQ 255, two-reason records; library pairs sharing unnamed '
             '(bulk) records; get_binned_counts and get_binned_counts_prefixed without a filter function, with regions and aliases; the installed '
             'script in its own interpreter; read_counts as a complete truth table (144 records x 48 option sets); 1-4 workers with one bin per job; a first library without reads on a contig the second covers.',
@@ -279,13 +279,13 @@ AUDIT = {
             'each tiling fed through the real bp_chunked.',
             'Small-scope: coincidences needing coordinates beyond R or more than 2-4 blacklist intervals are not covered; the total_bins <= 0 '
             'branches are unreachable (merge output is sorted and disjoint, checked exhaustively).'),
-    'C18': ('Audit extension: a seventh run letter (verbose, pickle round trip, region-bounded resolver, chrom restriction, unwritable cache '
+    'C18': ('One sample name holds a blank. Audit extension: a seventh run letter (verbose, pickle round trip, region-bounded resolver, chrom restriction, unwritable cache '
             'directory, second ignore set) whose written caches are ordinary search state; a second initial state with .unfinished left-overs; '
             'haploid / triploid / four-allele / lower-case / * / duplicate-position records and unsorted contig order; contig-name patterns over '
             'all ordered configuration pairs; the DA tag of every read through MoleculeIterator and write_tags across 9 resolver steps.',
             'phased=False, missing genotypes and multi-base sites are only covered by the all-modes-agree comparison; outside a bounded '
             'resolver\'s window an answer may be missing but never wrong; uglyMode, sites-only and un-indexed VCFs are not generated.'),
-    'C20': ('Audit extension: a fault before EVERY executed source line of the three pipeline modules (sys.settrace in the forked '
+    'C20': ('Torn intermediate file: the unsorted output of writer k silently loses its last data block and EOF block before the header rewrite. Audit extension: a fault before EVERY executed source line of the three pipeline modules (sys.settrace in the forked '
             'child; exceptions at first/last occurrence, kills one per distinct on-disk state, interrupts one per (state, stack); thorough: '
             'every occurrence); partial effects (truncated .bai, sort / merge dying after a valid empty BAM, status writes failing or left '
             'partial, every file-system call), an OSError kind, triple sort failures, pairs of faults; options (-head, --no_rejects, -contig, '
@@ -296,7 +296,7 @@ AUDIT = {
             'Kills land at Python-level line boundaries and modelled mid-write points; a hung execution is killed after 60 s and judged like '
             'a kill; -head, --no_rejects and --no_source_reads outputs are judged on existence, EOF, order and index only; a read-only '
             'directory is represented by OSError at every file-system call (the checks run as root).'),
-    'C19': ('Audit extension: the third anchored writer bamSplitByTag.py (all words over a read alphabet x max_handles x head x {one call, the '
+    'C19': ('Four non-canonical spellings of the output paths (relative, ./, //, ..) alone, under a descriptor budget and after both histories; the in-memory store resolves spellings like a file system. Audit extension: the third anchored writer bamSplitByTag.py (all words over a read alphabet x max_handles x head x {one call, the '
             'real __main__ loop via runpy}; pysam replaced by a counting pass-through, Pool by the owned scheduler; command lines in a fresh '
             'interpreter with the real Pool); FastqHandle(single_cell) single-end and without cell index; HandleLimiter forceAppend and an '
             'explicit close() before any write of the sequence.',
